@@ -440,27 +440,46 @@ package zygo
 // is abstracted (the whole heap is havocked), so these proofs depend only on
 // the restore being on every error path.
 //@ stable C05 Zlisp | datastack, addrstack | NewZlispWithFuncs, (*Zlisp).Clone, (*Zlisp).Duplicate
-//@ macro distinctStacks(e *Zlisp) bool = e == nil || (e.datastack != e.addrstack && e.datastack != e.linearstack && e.addrstack != e.linearstack)
-//@ typeinv C05 Zlisp | datastack, addrstack, linearstack | NewZlispWithFuncs, (*Zlisp).Clone, (*Zlisp).Duplicate, (*Zlisp).restoreControlState, (*SexpLazyArg).Force | distinctStacks(self)
+//@ macro distinctStacks(e *Zlisp) bool = e == nil || (e.datastack != nil && e.addrstack != nil && e.linearstack != nil && e.datastack != e.addrstack && e.datastack != e.linearstack && e.addrstack != e.linearstack)
+//@ typeinv C05 Zlisp | datastack, addrstack, linearstack | NewZlispWithFuncs, (*Zlisp).Clone, (*Zlisp).Duplicate, (*Zlisp).restoreControlState, (*SexpLazyArg).Force! | distinctStacks(self)
 
 //@ macro ctlIs(env *Zlisp, st vmControlState) bool = env.curfunc == st.curfunc && env.pc == st.pc && env.linearstack == st.linearstack
 //@ |  && env.addrstack.tos == st.addrstackSize - 1 && env.linearstack.tos == st.linearstackSize - 1 && env.datastack.tos == st.datastackSize - 1
 
 //@ func (*Zlisp).captureControlState
+//@ requires typeinv[Zlisp] distinctStacks(env)
+//@ requires typeinv[Stack] wfs(env.addrstack) && wfs(env.linearstack) && wfs(env.datastack)
 //@ C05 pure
 //@ C05 ensures ctlIs(env, r0) && r0.addrstackSize >= 0 && r0.linearstackSize >= 0 && r0.datastackSize >= 0
 
 //@ func (*Zlisp).restoreControlState
-//@ requires typeinv distinctStacks(env)
-//@ requires state.linearstack != env.datastack && state.linearstack != env.addrstack && state.linearstack != nil
-//@ requires state.addrstackSize >= 0 && state.linearstackSize >= 0 && state.datastackSize >= 0
+//@ requires nonnil: env != nil
+//@ requires typeinv[Zlisp] distinctStacks(env)
+//@ requires scope-stack-distinct: state.linearstack != env.datastack && state.linearstack != env.addrstack && state.linearstack != nil
+//@ requires sizes: state.addrstackSize >= 0 && state.linearstackSize >= 0 && state.datastackSize >= 0
 //@ C05 ensures ctlIs(env, state) && distinctStacks(env)
 //@ C05 modifies env.linearstack, env.curfunc, env.pc, env.addrstack.tos, env.addrstack.elements, elems(env.addrstack.elements), env.datastack.tos, env.datastack.elements, elems(env.datastack.elements), state.linearstack.tos, state.linearstack.elements, elems(state.linearstack.elements)
+
+// data-stack helpers (datastack.go)
+//@ func (*Stack).PushExpr
+//@ requires typeinv[Stack] wfs(stack)
+//@ C04,C05 modifies stack.tos, stack.elements, elems(stack.elements)
+//@ C04,C05 ensures wfs(stack) && stack.tos == old(stack.tos) + 1
+
+//@ func (*Stack).PopExpr
+//@ requires typeinv[Stack] wfs(stack)
+//@ C04,C05 modifies stack.tos, stack.elements, elems(stack.elements)
+//@ C04,C05 ensures ok: r1 == nil ==> wfs(stack) && old(stack.tos) >= 0 && stack.tos == old(stack.tos) - 1
+//@ C04,C05 ensures underflow: r1 != nil ==> old(stack.tos) < 0 && stack.tos == old(stack.tos)
+
+//@ func functionSize
+//@ C05 pure
+//@ C05 ensures function != nil && !function.user ==> r0 == len(function.fun)
 
 //@ func (*Zlisp).Run
 //@ ghost st := ret0 @after call captureControlState[0]
 //@ C05 ensures on-error: r1 != nil ==> env.curfunc == st.curfunc && env.linearstack == st.linearstack && env.addrstack.tos == st.addrstackSize - 1 && env.linearstack.tos == st.linearstackSize - 1 && env.datastack.tos == st.datastackSize - 1
-//@ C05 ensures parked: r1 != nil && !env.curfunc.user ==> env.pc == len(env.curfunc.fun)
+//@ C05 ensures parked: r1 != nil && env.curfunc != nil && !env.curfunc.user ==> env.pc == len(env.curfunc.fun)
 
 //@ func (*Zlisp).EvalCallExpression
 //@ ghost captured := false @entry
